@@ -337,6 +337,19 @@ type ptrNamed struct{ ID int }
 
 func (*ptrNamed) EventTypeName() string { return "c09.ptrnamed" }
 
+// ptrRecv has MarshalJSON on the pointer receiver only: published by value its encoding is the
+// default struct encoding, published by pointer the custom one
+type ptrRecv struct{ ID, X int }
+
+func (p *ptrRecv) MarshalJSON() ([]byte, error) {
+	return []byte(fmt.Sprintf(`{"ID":%d,"X":%d,"via":"ptr"}`, p.ID, p.X)), nil
+}
+
+type bigEv struct {
+	ID   int
+	Blob string
+}
+
 type strEv string
 type mapEv map[string]int
 
@@ -452,6 +465,11 @@ func TestC09Values(t *testing.T) {
 			roundTrip(run, bus, mem, ptrNamed{ID: i}, "TypeNamer-pointer-receiver-by-value", 2)
 		case 8:
 			roundTrip(run, bus, mem, strEv(str(r)), "named-string", 1)
+			roundTrip(run, bus, mem, ptrRecv{ID: i, X: r.IntN(9)}, "pointer-receiver-MarshalJSON-by-value", 2)
+			roundTrip(run, bus, mem, &ptrRecv{ID: i, X: r.IntN(9)}, "pointer-receiver-MarshalJSON-by-pointer", 2)
+			if i%200 == 8 {
+				roundTrip(run, bus, mem, bigEv{ID: i, Blob: strings.Repeat(str(r)+"x", 200000)}, "large-event", 2)
+			}
 		case 9:
 			roundTrip(run, bus, mem, mapEv{str(r): i, "k": -i}, "named-map", 1)
 			// byte-slice events: the JSON encoding of []byte is a base64 string, also when the bytes
